@@ -15,6 +15,7 @@
 package main
 
 import (
+	"encoding/binary"
 	"encoding/json"
 	"flag"
 	"fmt"
@@ -241,6 +242,36 @@ type real struct {
 	fresh func() (queue.Store, error) // a new Store object over the same backing data
 }
 
+// age makes the stored elements look `secs` seconds older than they are (redis target): the expiry of every stored
+// element that has one is moved into the past by that much - as if the session had been offline for a while before it is
+// re-initialised.  Stored expiries have a resolution of one second, so without this a re-initialisation right after the
+// Close re-writes identical bytes and a stale copy of them is indistinguishable from a fresh one.  (Neutral for the
+// abstraction of Queue.tla: "future" stays future - an hour away -, "past" stays past, "none" is not touched.)
+func (r *real) age(secs int64) {
+	if r.env == nil {
+		return
+	}
+	c := r.env.pool.Get()
+	defer c.Close()
+	key := "queue:" + r.cid
+	vs, err := redigo.ByteSlices(c.Do("LRANGE", key, 0, -1))
+	if err != nil {
+		return
+	}
+	for i, b := range vs {
+		if len(b) < 19 {
+			continue
+		}
+		v := int64(binary.BigEndian.Uint64(b[9:17]))
+		if v < 1000000000 { // no expiry (the zero time), or nothing sensible
+			continue
+		}
+		nb := append([]byte(nil), b...)
+		binary.BigEndian.PutUint64(nb[9:17], uint64(v-secs))
+		c.Do("LSET", key, i, nb)
+	}
+}
+
 func (r *real) release() {
 	if r.q != nil {
 		r.q.Close()
@@ -409,6 +440,9 @@ func (r *real) apply(op *Op) got {
 				return got{res: "err:" + err.Error()}
 			}
 			r.q, q = nq, nq
+		}
+		if *target == "redis" && !op.Clean {
+			r.age(5)
 		}
 		return r.call(func() ([]*queue.Elem, string) { return nil, errRes(q.Init(r.initOpts(op.Clean))) })
 	case "close":
